@@ -17,6 +17,7 @@ LEVEL_TEXT = (
     "equal A (means, covariances, step counts, scales); both must equal the textbook filter/RTS smoother on the recorded steps "
     "merged with the checkpoints (mpmath); the terminal-value routine must equal the last entry; off-grid marginals of a "
     "save-every-step run must agree. Exploration is right: the quantifier is over layouts/histories with an executable oracle."
+    ' Structures carry a step controller (default integral / PI / integral with other parameters) that both routines must honour; when the recorded interpolation calls do not match the requested times one to one, the model is rebuilt from the requested times and the accepted steps alone and the values are compared.'
 )
 LEVEL_NOTE = "Trusted: mpmath reference model; recording proxies (ordered jax.debug callbacks). Clip off, same end points, as the property states."
 RULE = (
